@@ -167,16 +167,38 @@ ssize_t __wrap_getrandom(void* buf, size_t len, unsigned flags) {
 }
 
 /* ------------------------------------------------------------------ S3 cpu */
+/* "The CPU the process happens to run on": the node's capability word, bounded by what the host can really execute.
+ * The host's capabilities come from the compiler builtin, NOT from the library's own fallback detection
+ * (cpu.c:init_caps uses __get_cpuid(7, ...) without the sub-leaf and reports no AVX2 on this machine, which would
+ * silently turn every "AVX2" node into an SSE2 node). */
+static unsigned host_caps(void) {
+  static unsigned caps = 0xffffffffu;
+  if (caps == 0xffffffffu) {
+    unsigned c = 0;
+#if defined(__x86_64__) || defined(__i386__)
+    __builtin_cpu_init();
+    if (__builtin_cpu_supports("sse2"))
+      c |= 0x01;
+    if (__builtin_cpu_supports("avx2"))
+      c |= 0x04;
+    if (__builtin_cpu_supports("bmi2"))
+      c |= 0x10;
+#endif
+    caps = c;
+  }
+  return caps;
+}
+unsigned sim_host_caps(void) { return host_caps(); }
 bool __real_cpu_supports(unsigned) __attribute__((weak));
 bool __wrap_cpu_supports(unsigned caps) {
   SimEnv* e = cur_env;
+  unsigned mask = 0xffffffffu;
   if (e) {
     e->n_caps++;
     yield_point(e);
-    if ((e->caps_mask & caps) != caps)
-      return false;
+    mask = e->caps_mask;
   }
-  return __real_cpu_supports(caps);
+  return ((host_caps() & mask) & caps) == caps;
 }
 
 /* ------------------------------------------------------------------ S7 clock = Keccak-f permutations */
@@ -236,3 +258,16 @@ YIELD_WRAP(int, Keccak_HashInitializetimes4, (void* a, unsigned b, unsigned c, u
 YIELD_WRAP(int, Keccak_HashUpdatetimes4, (void* a, const uint8_t** b, size_t c), (a, b, c))
 YIELD_WRAP(int, Keccak_HashFinaltimes4, (void* a, uint8_t** b), (a, b))
 YIELD_WRAP(int, Keccak_HashSqueezetimes4, (void* a, uint8_t** b, size_t c), (a, b, c))
+
+/* ------------------------------------------------------------------ family probes (reach evidence for S3/S4) */
+#define PROBE_WRAP(name, field)                                                                                        \
+  void __real_##name(void*, const void*, const void*) __attribute__((weak));                                           \
+  void __wrap_##name(void* c, const void* v, const void* A) {                                                          \
+    SimEnv* e = cur_env;                                                                                               \
+    if (e)                                                                                                             \
+      e->field++;                                                                                                      \
+    __real_##name(c, v, A);                                                                                            \
+  }
+PROBE_WRAP(mzd_addmul_v_s256_129, k_s256)
+PROBE_WRAP(mzd_addmul_v_s128_129, k_s128)
+PROBE_WRAP(mzd_addmul_v_uint64_129, k_u64)
